@@ -371,6 +371,34 @@ pub fn json_roundtrip(req: &J) -> J {
                 continue;
             }
         };
+        // the other routes through serde: a `Value` tree, an owned reader, a byte slice
+        match serde_json::to_value(&slot) {
+            Err(e) => failures.push(json!({"i": i, "stage": "serialize:to_value", "error": e.to_string()})),
+            Ok(v) => match serde_json::from_value::<StorageSlot>(v) {
+                Err(e) => failures.push(json!({"i": i, "stage": "deserialize:from_value", "error": e.to_string(), "text": text})),
+                Ok(b) => {
+                    if b != slot || serde_json::to_string(&b).unwrap_or_default() != text {
+                        failures.push(json!({"i": i, "stage": "compare:from_value", "text": text}));
+                    }
+                }
+            },
+        }
+        match serde_json::from_reader::<_, StorageSlot>(std::io::Cursor::new(text.clone().into_bytes())) {
+            Err(e) => failures.push(json!({"i": i, "stage": "deserialize:from_reader", "error": e.to_string(), "text": text})),
+            Ok(b) => {
+                if b != slot {
+                    failures.push(json!({"i": i, "stage": "compare:from_reader", "text": text}));
+                }
+            }
+        }
+        match serde_json::from_slice::<StorageSlot>(text.as_bytes()) {
+            Err(e) => failures.push(json!({"i": i, "stage": "deserialize:from_slice", "error": e.to_string(), "text": text})),
+            Ok(b) => {
+                if b != slot {
+                    failures.push(json!({"i": i, "stage": "compare:from_slice", "text": text}));
+                }
+            }
+        }
         let back: Result<StorageSlot, _> = serde_json::from_str(&text);
         match back {
             Err(e) => failures.push(json!({"i": i, "stage": "deserialize", "error": e.to_string(), "text": text})),
